@@ -79,9 +79,9 @@ def geneInScope (genome : Str) (g : GeneIn) : Bool :=
 
 def mixedGene (g : GeneIn) : Bool := !g.allCoding && !g.noneCoding
 
-def codonless (genome : Str) (table : Nat) (g : GeneIn) : Bool :=
+def codonless (genome : Str) (_table : Nat) (g : GeneIn) : Bool :=
   g.txs.any (fun t => match t.cdsIn genome with
-    | some c => (c.startPartial table).isNone
+    | some c => c.codons == some []
     | none => false)
 
 /-- names of the clauses feature `f` violates against expectation `w` -/
@@ -248,7 +248,7 @@ def ops : List (String × Op) := [
       match ans, pre, seqName with
       | ["ok", repro, text], some pre, some seqName =>
         let c : CollIn := ⟨seqName, g, genes, table, flavor = "P", pre, step.toNat⟩
-        if anyMixed || anyCodonless then pure "fail answered-outside-claim" else
+        if anyMixed then pure "fail answered-outside-claim" else
         match read (decText text), wantAll c 1 genes with
         | some [s], some ws =>
           let v := verdictOf ((if s.seqId == seqName then [] else ["header"]) ++ allFailures pre ws s.feats ++
